@@ -84,8 +84,11 @@ fn matches(r: &Rule, branch: &str) -> bool {
 #[derive(Debug, Clone, PartialEq)]
 pub enum Num {
     Exact(String),
-    /// statement leaves it open (overflowing digit segment, absent branch)
+    /// statement leaves it open (absent branch)
     Unspecified,
+    /// the first all-digit segment cannot be represented: the branch hash or the segment's own value are both defensible,
+    /// any other number (e.g. a *later* digit segment) is not
+    OneOf(Vec<String>),
 }
 
 /// number from the rule: explicit, else first all-digit '/'-segment after the prefix, else None (=> branch id)
@@ -95,7 +98,7 @@ fn rule_number(r: &Rule, branch: &str) -> Option<Num> {
     let seg = rest.split('/').find(|s| !s.is_empty() && s.bytes().all(|b| b.is_ascii_digit()))?;
     let stripped = seg.trim_start_matches('0');
     let stripped = if stripped.is_empty() { "0" } else { stripped };
-    if stripped.len() > 10 || (stripped.len() == 10 && stripped > "4294967295") { return Some(Num::Unspecified); }
+    if stripped.len() > 10 || (stripped.len() == 10 && stripped > "4294967295") { return Some(Num::OneOf(vec![stripped.to_string()])); }
     Some(Num::Exact(stripped.to_string()))
 }
 
@@ -137,7 +140,9 @@ pub fn expect(tag: &RVars, rules: &[Rule], i: &FlowInput, now: u64) -> Expect {
     let label = i.flag_label.or(rule.map(|r| r.label)).unwrap_or("alpha");
     let mode = i.flag_mode.or(rule.map(|r| r.mode)).unwrap_or("commit");
     let number = if let Some(n) = i.flag_num { Num::Exact(n.to_string()) }
-        else if let Some(n) = rule.and_then(|r| rule_number(r, i.branch.as_deref().unwrap_or(""))) { n }
+        else if let Some(n) = rule.and_then(|r| rule_number(r, i.branch.as_deref().unwrap_or(""))) {
+            match n { Num::OneOf(mut v) => { if let Some(b) = &i.branch { v.push(branch_id(b, i.hash_len)); } Num::OneOf(v) } other => other }
+        }
         else if let Some(b) = &i.branch { Num::Exact(branch_id(b, i.hash_len)) }
         else { Num::Unspecified };
     let base_post = i.flag_post.or(tag.post);
